@@ -34,6 +34,13 @@ func errFork(b *Base) func(x *Exec, call *ast.CallExpr, lhs []ast.Expr, s St) ([
 		if nonNilCall(x.Fn.Info, call) || b.Inline[calleeKey(x.Fn.Info, call)] {
 			return nil, false // constructors of errors never fail; inlined callees are interpreted
 		}
+		if b.AutoInline != nil {
+			if f := Callee(x.Fn.Info, call); f != nil {
+				if fi := x.Fn.P.FuncOf(f); fi != nil && fi.Decl.Body != nil && b.AutoInline(fi) {
+					return nil, false
+				}
+			}
+		}
 		if len(lhs) >= 1 {
 			if tv := x.Fn.Info.TypeOf(lhs[len(lhs)-1]); tv != nil && tv.String() == "error" {
 				return b.ForkErr(x, lhs, len(lhs)-1, s, nil, nil), true
